@@ -379,8 +379,13 @@ type runWorld struct {
 
 var rw *runWorld
 
-func wholeRun(mode, rate string, maxDur time.Duration, conc int, bodySleep time.Duration, limit uint64) vrt.Scenario {
+// second: two runs are constructed on one metrics instance, an earlier one is
+// executed to its end, then the run under observation.
+func wholeRun(mode, rate string, maxDur time.Duration, conc int, bodySleep time.Duration, limit uint64, second ...bool) vrt.Scenario {
 	name := fmt.Sprintf("run/%s/rate=%s/maxdur=%s/c=%d/body=%s/limit=%d", mode, rate, maxDur, conc, bodySleep, limit)
+	if len(second) > 0 {
+		name += "/after-an-earlier-run-built-on-the-same-metrics"
+	}
 	body := func() {
 		x := &runWorld{}
 		rw = x
@@ -407,11 +412,28 @@ func wholeRun(mode, rate string, maxDur time.Duration, conc int, bodySleep time.
 				}
 			}
 		}
+		var earlier *hlib.Built
+		if len(second) > 0 {
+			x.reg = prometheus.NewRegistry()
+			rs.Metrics = metrics.NewInstance(x.reg, true, nil)
+			e, err := rs.Build()
+			if err != nil {
+				panic(err)
+			}
+			earlier = e
+		}
 		b, err := rs.Build()
 		if err != nil {
 			panic(err)
 		}
-		x.reg = b.Reg
+		if earlier != nil {
+			if _, err := earlier.Run.Do(vctx.Background()); err != nil {
+				panic(err)
+			}
+			x.pass, x.fail, x.requested = 0, 0, 0
+		} else {
+			x.reg = b.Reg
+		}
 		if mode == "constant" {
 			// the same ticking worker, with a rate function of the harness that counts its requests
 			var perTick int
@@ -483,6 +505,8 @@ func scenariosFor(tier string) []vrt.Scenario {
 		addRun(2, wholeRun("constant", "2/500ms", 1260*time.Millisecond, 1, 500*time.Millisecond, 0))
 		// config-file mode: the deadline ends the stage at the instant a tick supersedes pending work
 		addRun(2, wholeRun("file", "3/100ms", 310*time.Millisecond, 1, 250*time.Millisecond, 0))
+		addRun(0, wholeRun("constant", "2/100ms", 310*time.Millisecond, 2, 30*time.Millisecond, 0, true))
+		addRun(0, wholeRun("users", "", 310*time.Millisecond, 2, 100*time.Millisecond, 3, true))
 		// lean: one iteration, the progress tick and the end of the run at the same instant; three deviations
 		addRun(2, wholeRun("constant", "1/1s", 1010*time.Millisecond, 1, 0, 0))
 	} else {
@@ -496,6 +520,8 @@ func scenariosFor(tier string) []vrt.Scenario {
 		addRun(3, wholeRun("constant", "2/500ms", 1260*time.Millisecond, 1, 500*time.Millisecond, 0))
 		addRun(3, wholeRun("file", "3/100ms", 310*time.Millisecond, 1, 250*time.Millisecond, 0))
 		addRun(2, wholeRun("constant", "3/500ms", 1260*time.Millisecond, 2, 500*time.Millisecond, 0))
+		addRun(1, wholeRun("constant", "2/100ms", 310*time.Millisecond, 2, 30*time.Millisecond, 0, true))
+		addRun(1, wholeRun("users", "", 310*time.Millisecond, 2, 100*time.Millisecond, 3, true))
 	}
 	add := func(b int, snaps int, scripts ...string) {
 		sc := component(scripts, snaps)
